@@ -787,12 +787,15 @@ def splitLines (bs : List Byte) : List (List Byte) := splitLinesAux bs []
 /-- lexicographic `(depth, address)` order used by `sort_unstable_by_key` / `binary_search_by_key` -/
 def inlLE (a b : Inlinee) : Bool := a.depth < b.depth || (a.depth = b.depth && a.address ≤ b.address)
 
-/-- the body loop: `none` = an `INLINE…` line failed to parse (`BreakpadParseError::ParsingInline`,
-index.rs:413-415 — note that the token test is `starts_with(b"INLINE")`, so an `INLINE_ORIGIN` line
-inside the block also takes this branch and fails) -/
+/-- the body loop (index.rs:412-423): a line starting with `INLINE_ORIGIN` is skipped (fix c4b9d51a);
+`none` = a line starting with `INLINE` failed to parse as an INLINE record
+(`BreakpadParseError::ParsingInline`); any other line is a line record or ignored -/
 def parseBody : List (List Byte) → Option (List SourceLine × List Inlinee)
   | [] => some ([], [])
   | l :: rest =>
+    match tag tINLINE_ORIGIN l with
+    | some _ => parseBody rest
+    | none =>
     match tag tINLINE l with
     | some r =>
       match parseInlineRest r with
@@ -809,7 +812,29 @@ def parseBody : List (List Byte) → Option (List SourceLine × List Inlinee)
         | some sl => some (sl :: ls, is')
         | none => some (ls, is')
 
-/-- `BreakpadFuncSymbol::parse` (index.rs:404-428) -/
+/-- the body loop before fix c4b9d51a: the token test `starts_with(b"INLINE")` also matched an
+`INLINE_ORIGIN` line inside the block, whose remainder then failed to parse as an INLINE record and made
+the whole FUNC unparseable (see `C10_legacy_counterexample_origin_in_func`) -/
+def parseBodyLegacy : List (List Byte) → Option (List SourceLine × List Inlinee)
+  | [] => some ([], [])
+  | l :: rest =>
+    match tag tINLINE l with
+    | some r =>
+      match parseInlineRest r with
+      | none => none
+      | some is =>
+        match parseBodyLegacy rest with
+        | none => none
+        | some (ls, is') => some (ls, is ++ is')
+    | none =>
+      match parseBodyLegacy rest with
+      | none => none
+      | some (ls, is') =>
+        match parseLineRec l with
+        | some sl => some (sl :: ls, is')
+        | none => some (ls, is')
+
+/-- `BreakpadFuncSymbol::parse` (index.rs:404-431) -/
 def parseFunc (block : List Byte) : Option FuncInfo :=
   let (first, rest) :=
     match LB.splitNl block with
